@@ -416,3 +416,89 @@ def switch_branching_labels():
                     if dpos is not None:
                         cases.insert(dpos, (None, [bit(6), ('break',)]))
                     yield [('let', 'let', 'r', None, I(0)), ('switch', discr, cases), ('return', ('local', 'r'))]
+
+
+def completion_value_programs(depth):
+    """value = completion value of the LAST executed expression statement: every switch skeleton / nesting with its
+    accumulator updates replaced by statement-free expression statements (string literals, a local), fall-through
+    included; the construct is the last statement, or is followed by one more expression statement"""
+    S = lambda k: ('expr', lit('QString', f'v{k}'))
+
+    def conv(ss, n):
+        out = []
+        for s in ss:
+            if s[0] == 'assign' and s[1] == 'r':
+                n[0] += 1
+                out.append(S(n[0]) if n[0] % 4 else ('expr', ('local', 'w')))
+            elif s[0] == 'return':
+                out.append(('return', lit('QString', 'ret')))
+            elif s[0] == 'if':
+                out.append(('if', s[1], conv(s[2], n), conv(s[3], n) if s[3] is not None else None))
+            elif s[0] == 'switch':
+                out.append(('switch', s[1], [(c, conv(b, n)) for c, b in s[2]]))
+            elif s[0] == 'block':
+                out.append(('block', conv(s[1], n)))
+            elif s[0] == 'let' and s[2] == 'r':
+                out.append(('let', 'let', 'w', None, P('b', 'sval')))
+            else:
+                out.append(s)
+        return out
+    k = 0
+    for ss in itertools.chain(switch_skeletons(), nestings(depth)):
+        body = conv(ss, [0])
+        while body and body[-1][0] in ('return', 'expr'):
+            body.pop()
+        k += 1
+        # a leading value so that every path has a completion value even if no clause runs
+        yield [body[0], ('expr', lit('QString', 'first'))] + body[1:] + ([('expr', lit('QString', 'end'))] if k % 3 == 0 else [])
+
+
+def dynamic_then_constant_tail():
+    """early return of a run-time value, constant afterwards: the binding is NOT a constant"""
+    out = []
+    tails = [lambda v: [('expr', v)], lambda v: [('return', v)]]
+    for ty, dyn, const in (('QString', P('a', 'sval'), lit('QString', '(none)')), ('int', P('a', 'ival'), lit('int', 7)), ('bool', P('a', 'flag'), lit('bool', False)),
+                           ('double', P('a', 'dval'), lit('double', 1.5)), ('ptr:VNode', P('a', 'next'), lit('null', None))):
+        for t in tails:
+            out.append((ty, [('if', P('b', 'flag'), [('return', dyn)], None)] + t(const)))
+            out.append((ty, [('if', P('b', 'flag'), [('return', dyn)], [('return', const)])]))
+            out.append((ty, [('if', P('b', 'flag'), [('return', const)], None)] + t(dyn)))
+            out.append((ty, [('switch', P('b', 'ival'), [(lit('int', 1), [('return', dyn)]), (None, [('break',)])])] + t(const)))
+            out.append((ty, [('switch', P('b', 'ival'), [(lit('int', 1), [('return', const)]), (lit('int', 2), [('return', dyn)])])] + t(const)))
+            out.append((ty, [('if', P('b', 'flag'), [('if', P('c', 'flag'), [('return', dyn)], None)], None)] + t(const)))
+            out.append((ty, [('let', 'let', 'k', None, const), ('if', P('b', 'flag'), [('return', dyn)], None)] + t(('local', 'k'))))
+    return out
+
+
+def rich_switch_tails(sample, off):
+    """callbacks: switch with <= 2 cases + default (every position); each clause body is simple / contains a ternary
+    assignment / contains an if-else join, and leaves by fall-through / break / return; declaration-only tail"""
+    I = lambda v: lit('int', v)
+    def body(kind, k):
+        if kind == 's':
+            return [bit(k)]
+        if kind == 't':
+            return [('assign', 'r', ('tern', P('b', 'flag'), I(1 << k), ('local', 'r')))]
+        return [('if', P('c', 'flag'), [bit(k)], [bit(k + 3)])]
+    n = 0
+    for ncase in (1, 2):
+        nb = ncase + 1
+        for dpos in range(ncase + 1):
+            for kinds in itertools.product('sti', repeat=nb):
+                for terms in itertools.product(('fall', 'break', 'return'), repeat=nb):
+                    n += 1
+                    if n % sample != off:
+                        continue
+                    cases, ci = [], 0
+                    for bi in range(nb):
+                        b = body(kinds[bi], bi)
+                        if terms[bi] == 'break':
+                            b = b + [('break',)]
+                        elif terms[bi] == 'return':
+                            b = b + [('return', None)]
+                        if bi == dpos:
+                            cases.append((None, b))
+                        else:
+                            cases.append((I(ci + 1), b))
+                            ci += 1
+                    yield [('let', 'let', 'r', None, I(0)), ('switch', P('a', 'ival'), cases), ('let', 'let', 'x', None, ('bin', '+', P('a', 'ival'), I(1)))]
